@@ -84,7 +84,8 @@ Definition busy_closed (P : tracker -> Prop) : Prop :=
 Definition keeps (s s' : state) : Prop :=
   now s' = now s /\ s_up s' = s_up s /\ s_comp s' = s_comp s /\ s_left s' = s_left s /\
   map t_group (trs s') = map t_group (trs s) /\
-  (forall P, busy_closed P -> Forall P (trs s) -> Forall P (trs s')).
+  (forall P, busy_closed P -> Forall P (trs s) -> Forall P (trs s')) /\
+  map t_id (trs s') = map t_id (trs s).
 
 Definition frame (s s' : state) : Prop := fl s' = fl s /\ keeps s s'.
 
@@ -108,7 +109,7 @@ Proof. unfold keeps. repeat split; auto. Qed.
 
 Lemma keeps_trans s1 s2 s3 : keeps s1 s2 -> keeps s2 s3 -> keeps s1 s3.
 Proof.
-  unfold keeps. intros (a&b&c&d&e&f) (a'&b'&c'&d'&e'&f'). repeat split; try congruence. intros P HP H. auto.
+  unfold keeps. intros (a&b&c&d&e&f&g) (a'&b'&c'&d'&e'&f'&g'). repeat split; try congruence. intros P HP H. auto.
 Qed.
 
 Lemma keeps_same_trs s s' :
@@ -178,6 +179,7 @@ Proof.
   - split; [reflexivity |]. unfold keeps; simpl. repeat split; auto.
     + apply upd_map. reflexivity.
     + intros P HP H. apply upd_Forall; [| assumption]. intros x Hx. apply HP. assumption.
+    + apply upd_map. reflexivity.
 Qed.
 
 Lemma fold_send_E sr ev (C : tracker -> Prop) l : forall s F T up comp lft,
